@@ -77,14 +77,29 @@ class RecFile(object):
     def flush(self):
         return self._f.flush()
 
+    def writelines(self, lines):
+        for x in lines:
+            self.write(x)
+
+    def __enter__(self):
+        return self
+
+    def __exit__(self, *exc):
+        self.close()
+        return False
+
+    def __iter__(self):
+        return iter(self._f)
+
     def fileno(self):
         self._f.flush()
         return self._f.fileno()
 
     def truncate(self, *a):
         WRITES[0] += 1
+        size = a[0] if a and a[0] is not None else self._f.tell()
         if LOG_ON[0]:
-            LOG.append(("truncate", self._name, a))
+            LOG.append(("truncate", self._name, (size,)))
         return self._f.truncate(*a)
 
     @property
@@ -189,7 +204,7 @@ def install_mem_write_counter():
     if getattr(cls, "_vt_wrapped", False):
         return
     _w = cls.write
-    _c = cls.clear
+    _c = getattr(cls, "clear", None)
 
     def write(self, *a, **k):
         WRITES[0] += 1
@@ -199,9 +214,14 @@ def install_mem_write_counter():
         WRITES[0] += 1
         return _c(self, *a, **k)
 
-    cls.write = write
-    cls.clear = clear
-    cls._vt_wrapped = True
+    try:
+        cls.write = write
+        if _c is not None:
+            cls.clear = clear
+        cls._vt_wrapped = True
+    except (AttributeError, TypeError) as e:
+        STATUS["M4mem"] = "absent: cannot wrap MemoryStorage (%s)" % type(e).__name__
+        return
     STATUS["M4mem"] = "on"
 
 
@@ -223,7 +243,10 @@ def install_m2():
         return
     if getattr(cls, "_vt_m2", False):
         return
-    fmt = TN.LRU_TRIE_NODE_FORMAT
+    fmt = getattr(TN, "LRU_TRIE_NODE_FORMAT", None)
+    if not isinstance(fmt, str):
+        STATUS["M2"] = "absent: LRU_TRIE_NODE_FORMAT"
+        return
     _read = cls.read
     _write = cls.write
 
@@ -291,8 +314,10 @@ def install_m7():
         STATUS["M7"] = "absent: TraphIteratorState.should_yield"
         return False
 
+    _orig = cls.should_yield
+
     def should_yield(self, *a, **k):
-        self.n_iterations += 1
+        _orig(self, *a, **k)  # the class's own book-keeping (iteration counter), whatever it is called
         return True
 
     cls.should_yield = should_yield
@@ -305,15 +330,40 @@ def install_m7():
 # --------------------------------------------------------------------------
 def store_bytes(t):
     """Raw bytes of both stores of a live Traph (flushes files first)."""
-    if getattr(t, "in_memory", False):
-        return bytes(t.lru_trie_storage.array), bytes(t.links_store_storage.array)
-    t.lru_trie_file.flush()
-    t.link_store_file.flush()
-    with ORIG_OPEN(t.lru_trie_path, "rb") as f:
-        a = f.read()
-    with ORIG_OPEN(t.link_store_path, "rb") as f:
-        b = f.read()
-    return a, b
+    folder = getattr(t, "folder", None)
+    if not folder:
+        return _mem_bytes(getattr(t, "lru_trie", None), "lru_trie_storage", t), _mem_bytes(getattr(t, "link_store", None), "links_store_storage", t)
+    # file back-end: flush whatever handles the monitors handed out for this folder, then read the two files by name
+    for rf in list(FDS.values()):
+        try:
+            if os.path.dirname(os.path.abspath(rf._f.name)) == os.path.abspath(str(folder)) and not rf._f.closed:
+                rf._f.flush()
+        except Exception:
+            pass
+    for nm in ("lru_trie_file", "link_store_file"):
+        try:
+            getattr(t, nm).flush()
+        except Exception:
+            pass
+    out = []
+    for nm in TRACKED_NAMES:
+        with ORIG_OPEN(os.path.join(str(folder), nm), "rb") as f:
+            out.append(f.read())
+    return out[0], out[1]
+
+
+def _mem_bytes(store, attr, t):
+    """Bytes of an in-memory store: the storage object is found on the store (`.storage`) or on the Traph
+    (`attr`), its content read through `.array` when it has one, else block by block through read()."""
+    st = getattr(store, "storage", None)
+    if st is None:
+        st = getattr(t, attr, None)
+    arr = getattr(st, "array", None)
+    if arr is not None:
+        return bytes(arr)
+    size = getattr(st, "block_size", None)
+    n = len(st)
+    return b"".join(bytes(st.read(b) or b"") for b in range(0, n, size))
 
 
 def store_digest(t):
